@@ -76,6 +76,10 @@ func histApply(c *CaseHist, judge func(i int, op *Op, unreadBefore []byte, consu
 			r := runPrelude([]PreOp{{Kind: "unreg", Algo: op.Algo}})
 			prev := restore
 			restore = func() { r(); prev() }
+		case "cap": // the buffer starts out with this much capacity (e.g. a pooled or pre-grown buffer)
+			if i == 0 {
+				buf = bytes.NewBuffer(make([]byte, 0, op.K))
+			}
 		case "fill":
 			buf.Write(bytes.Repeat([]byte{0x55}, op.K))
 		case "write":
@@ -266,7 +270,7 @@ func genFrame(rt *rapid.T, label string, frames []string, allowAbsent bool, big 
 }
 
 type histStats struct {
-	offsetGT0, afterConsume, varBody, emptyBody, absentBody, staleLen, frames, slide, bigFrame, unreg int
+	offsetGT0, afterConsume, varBody, emptyBody, absentBody, staleLen, frames, slide, bigFrame, unreg, midSlide int
 }
 
 func genHistory(rt *rapid.T, frames []string, withReencode bool, registry bool) (*CaseHist, *histStats) {
@@ -283,6 +287,29 @@ func genHistory(rt *rapid.T, frames []string, withReencode bool, registry bool) 
 		keep := rapid.SampledFrom([]int{0, 1, 7, 100, 1000}).Draw(rt, "keep")
 		c.Ops = append(c.Ops, Op{Kind: "fill", K: fill}, Op{Kind: "consume", K: fill - min(keep, fill)})
 		unread, consumed = min(keep, fill), true
+		st.slide++
+	}
+	// scenario: pre-sized buffer, written almost to the end and almost entirely consumed, so that the frame does
+	// not fit the free tail but does fit after the unread bytes are slid down: the buffer moves its content in
+	// the middle of this Encode without changing capacity
+	midSlide := !slide && rapid.IntRange(0, 5).Draw(rt, "midslide") == 5
+	midTarget := 0
+	if midSlide {
+		capC := rapid.SampledFrom([]int{256, 1024, 4096, 65536, 65536, 262144}).Draw(rt, "cap")
+		keep := rapid.SampledFrom([]int{0, 1, 7, 60}).Draw(rt, "keep")
+		var tail int
+		if capC >= 65536 {
+			tail = capC * rapid.IntRange(20, 45).Draw(rt, "tailpct") / 100
+		} else {
+			tail = rapid.IntRange(1, capC/2-keep-20).Draw(rt, "tail")
+		}
+		w := capC - tail
+		c.Ops = append(c.Ops, Op{Kind: "cap", K: capC}, Op{Kind: "fill", K: w}, Op{Kind: "consume", K: w - keep})
+		unread, consumed = keep, true
+		hi := capC/2 - keep - 24
+		if hi > tail {
+			midTarget = tail + 1 + rapid.IntRange(0, hi-tail-1).Draw(rt, "into")
+		}
 		st.slide++
 	}
 	if registry && rapid.IntRange(0, 9).Draw(rt, "unreg") == 9 {
@@ -323,6 +350,12 @@ func genHistory(rt *rapid.T, frames []string, withReencode bool, registry bool) 
 		case "encode":
 			big := slide && rapid.Bool().Draw(rt, "bigframe")
 			v, feat := genFrame(rt, fmt.Sprintf("f%d", i), frames, true, big)
+			if midTarget > 0 {
+				if resizeFrameTo(v, midTarget) {
+					st.midSlide++
+				}
+				midTarget = 0
+			}
 			c.Ops = append(c.Ops, Op{Kind: "encode", V: v})
 			encIdx = append(encIdx, len(c.Ops)-1)
 			st.frames++
@@ -383,6 +416,7 @@ func histRecord(c *CaseHist, st *histStats, prop string) {
 	add(st.slide, "large-buffer-mostly-consumed")
 	add(st.bigFrame, "frame>16KiB")
 	add(st.unreg, "a-checksum-service-unregistered")
+	add(st.midSlide, "frame-sized-to-make-the-buffer-slide-during-encode")
 	if st.slide > 0 && st.bigFrame > 0 {
 		cls = append(cls, "big-frame-into-mostly-consumed-large-buffer")
 	}
@@ -603,4 +637,71 @@ func specialChecksumCases(t *testing.T) {
 			}
 		}
 	}
+}
+
+// resizeFrameTo grows one variable-length field of the frame's body so that the frame renders to about
+// target bytes. Returns false if the body has no field that can be grown.
+func resizeFrameTo(v *Value, target int) bool {
+	ts := Types[v.Type]
+	body := v.F[ts.DynIndex()].O
+	if body == nil {
+		return false
+	}
+	cur := len(Render(v, nil).Bytes)
+	extra := target - cur
+	if extra <= 0 {
+		return true
+	}
+	bts := Types[body.Type]
+	for i, f := range bts.Fields {
+		x := &body.F[i]
+		switch f.Kind {
+		case "text":
+			n := min(extra, int(NMask(f.Prefix))-len(x.T))
+			if n <= 0 {
+				continue
+			}
+			x.T = append(append(HexBytes{}, x.T...), bytes.Repeat([]byte{'x'}, n)...)
+			return true
+		case "numlist":
+			n := min(extra/NSize(f.NType), int(NMask(f.Count))-len(x.NL))
+			if n <= 0 {
+				continue
+			}
+			for k := 0; k < n; k++ {
+				x.NL = append(x.NL, uint64(k)&NMask(f.NType))
+			}
+			x.Nil = false
+			return true
+		case "fixtextlist":
+			if f.Width == 0 {
+				continue
+			}
+			n := min(extra/f.Width, int(NMask(f.Count))-len(x.TL))
+			if n <= 0 {
+				continue
+			}
+			for k := 0; k < n; k++ {
+				x.TL = append(x.TL, HexBytes{'a' + byte(k%26)}[:min(1, f.Width)])
+			}
+			x.Nil = false
+			return true
+		case "objlist":
+			e := Skeleton(bts.Module+"."+f.Elem, 0)
+			u := len(Render(e, nil).Bytes)
+			if u == 0 {
+				continue
+			}
+			n := min(extra/u, int(min(NMask(f.Count), 1<<20))-len(x.OL))
+			if n <= 0 {
+				continue
+			}
+			for k := 0; k < n; k++ {
+				x.OL = append(x.OL, e)
+			}
+			x.Nil = false
+			return true
+		}
+	}
+	return false
 }
